@@ -75,6 +75,10 @@ EXACT_CORNERS = {1: [[]], 3: [[-math.pi / 3, math.pi / 3]], 5: [[-2 * math.pi / 
 
 def run(tier, seed):
     FIXED[:] = sorted([list(x) for x in FIXED_SEQUENCES], key=len)
+    import json as _json, os as _os
+    kp = _os.path.join(core.VERIF, "corpus", "C03", "mirror_even_degree.json")
+    if _os.path.exists(kp):          # inputs of the known finding: replayed on every run (after the regression sequences)
+        FIXED[:] = sorted(FIXED + [list(c["source_phases"]) for c in _json.load(open(kp))[:4]], key=len)
     ctx = core.Ctx(PROP, tier, seed, "translation_validation", ["C03", "C01", "C02"])
     ctx.axioms = core.audit(ctx.modules)
     import pyqsp.angle_sequence as A
@@ -198,7 +202,9 @@ def run(tier, seed):
             ctx.case([[(z.real, z.imag) for z in Pc]], True, {"family": "complex-corner", "degree": d, "source_phases": ph0, "outcome": out})
             replay = {"family": "complex-corner", "source_phases": ph0, "poly_re": [float(z.real) for z in Pc], "poly_im": [float(z.imag) for z in Pc]}
             if out != "ok":
-                ctx.violation("c03:complex-raises:%s:deg%d" % (out, d), "phase finding (Wx/z) raises (%s) on a corner polynomial of the stated family" % out, replay)
+                inner_ = ph0[1:-1]
+                sym = "mirror-symmetric" if (len(inner_) >= 2 and all(abs(inner_[i] - inner_[-1 - i]) < 1e-12 for i in range(len(inner_)))) else "generic"
+                ctx.violation("c03:complex-raises:%s:deg%d:%s" % (out, d, sym), "phase finding (Wx/z) raises (%s) on a corner polynomial of the stated family" % out, replay)
                 continue
             line = drv.ask("valid.c02 %d %d %s %s %s %s" % (P.BITS, P.DEPTH, rs(F(tol)), rl(F(z.real) for z in Pc), rl(F(z.imag) for z in Pc), rl(F(x) for x in ph)))
             v = P.vparse(line)
